@@ -20,6 +20,7 @@ through `MetaModel.new` (referred rows first) and by cloning the loaded instance
        the answer of the Lean model `Pyx.Load.build` (hash join with the index cache, five phases); API and
        clone routes equal `Pyx.Load.Api.apiBuild` / `cloneBuild` including their exception outcomes.
 """
+import hashlib
 import itertools
 import os
 import shutil
@@ -45,7 +46,7 @@ ASSUMPTIONS = [
     'corresponding referential / identifying attributes have the same declared type (Python compares 1 == 1.0 == True)',
     'positional INSERTs carry a value for every declared attribute (missing ones would take generator-drawn defaults, C19)',
     'REAL values are dyadic rationals with at most six fraction digits (float() and %f are exact on them)',
-    'directory walk order is the operating system\'s: for a wide directory only the order-independent comparison is made',
+    'the order in which os.walk lists sibling files is the operating system\'s; it is read off loader.statements',
 ]
 TRUSTED_EXTRA = ['harness/loadgen.py (generator, SQL text writer, nested-loop oracle)']
 CHUNK = 60
@@ -57,6 +58,15 @@ _x = None
 _bp = None
 _tmp = None
 _DOC = None
+# observations are compared as digests of their canonical text (results stay small: a case has up to 5040
+# variants); PYXVERIF_FULL_OBS=1 keeps the full dumps, e.g. when replaying a correspondence disagreement
+FULL_OBS = bool(os.environ.get('PYXVERIF_FULL_OBS'))
+
+
+def _digest(x):
+    if FULL_OBS or isinstance(x, Sym):
+        return x
+    return hashlib.sha1(dumps(x).encode('utf-8')).hexdigest()[:20]
 
 
 def setup(ctx):
@@ -660,6 +670,7 @@ def run_impl(case):
     base_order = None
     stats = {'variants': 0, 'fam_' + case['fam']: 1}
     cache = {}
+    seen_orders = []
     for n, v in enumerate(case['variants']):
         stats['variants'] += 1
         stats['route_' + v['route']] = stats.get('route_' + v['route'], 0) + 1
@@ -692,7 +703,8 @@ def run_impl(case):
                         sorted(map(repr, dump[3])) != sorted(map(repr, base_dump[3])):
                     fail('instance-order', 'the permutation keeps the order of each class\'s INSERTs but instance / '
                          'partner order differs; permuted input:\n%s' % G.text_of([stmts[i] for i in v['order']]))
-        obs.append(Sym('same') if v['route'] == 'bp-dirwide' else dump)
+        seen_orders.append(v['order'])
+        obs.append(dump if n == 0 else _digest(dump))
     api_obs = None
     if case.get('api') and base_dump is not None and base_dump[0] == 'ok' \
             and all(G.class_of(stmts, stmts[i]['kind']) for i in ins_ids):
@@ -718,8 +730,12 @@ def run_impl(case):
             _check_api('clone', stmts, raw, order, d3, outcomes3, expected, fail)
         api_obs = [[outcomes, d2[2], d2[3]], [outcomes3, d3[2], d3[3]]]
     nontrivial = any(0 < len(p) < _n_candidates(stmts, ai) for ai, p in expected.items())
-    return {'obs': [obs, api_obs if _api_modelled(case) and api_obs is not None else Sym('none')],
-            'd_fail': fails, 'nontrivial': nontrivial, 'key': G.text_of(stmts), 'stats': stats}
+    res = {'obs': [obs, api_obs if _api_modelled(case) and api_obs is not None else Sym('none')],
+           'd_fail': fails, 'nontrivial': nontrivial, 'key': G.text_of(stmts), 'stats': stats}
+    if any(v['route'] == 'bp-dirwide' for v in case['variants']):
+        # the order in which the operating system listed the sibling files is only known now
+        res['model_line'] = model_line(case, seen_orders)
+    return res
 
 
 def _n_candidates(stmts, ai):
@@ -745,9 +761,10 @@ def _api_order(stmts):
 
 # ----------------------------------------------------------------------------- model side
 
-def model_line(case):
+def model_line(case, orders=None):
     stmts = case['stmts']
-    vs = [[G.enc_stmt(stmts[i]) for i in v['order']] for v in case['variants'] if v['route'] != 'bp-dirwide']
+    orders = orders if orders is not None else [v['order'] for v in case['variants']]
+    vs = [[G.enc_stmt(stmts[i]) for i in o] for o in orders]
     api = Sym('none')
     if _api_modelled(case):
         order, raw = _api_order(stmts)
@@ -763,11 +780,7 @@ def model_line(case):
 
 
 def model_obs(case, ans):
-    it = iter(ans[0])
-    out = []
-    for v in case['variants']:
-        out.append(Sym('same') if v['route'] == 'bp-dirwide' else next(it))
-    return [out, ans[1]]
+    return [[d if n == 0 else _digest(d) for n, d in enumerate(ans[0])], ans[1]]
 
 
 def shrink_candidates(case):
